@@ -474,6 +474,8 @@ def extract_grammar(
     g = Grammar(starting_symbol, considered_subtypes, expansion_depthing)
     g.register_type(starting_symbol)
     g.preprocess()
-    if any(["weight" in get_gengy(p) for p in considered_subtypes]):
+    # every class of the grammar counts: a weighted nested abstract type is registered as the parent of its productions
+    # without having to be listed among the supplied classes
+    if any(["weight" in get_gengy(p) for p in list(considered_subtypes) + list(g.all_nodes)]):
         g.update_weights(1, g.get_weights())
     return g
